@@ -155,6 +155,36 @@ func genC11(h *H) {
 			}
 		}
 	}
+	// algebraic corner cases of s*G + e*Q, constructed from the relation e = H(r || m) (the key does not enter e):
+	//   s = 0 (valid: d = k/e), R = infinity (s = -e*d), s*G = e*Q (the addition takes its doubling branch)
+	for i := 0; i < 2*h.budget; i++ {
+		k := h.randKeyInt()
+		hash := h.randBytes(32)
+		kp := secp.NewPrivateKey(scalarFromHex(hx(be32(k)))).PubKey().SerializeUncompressed()
+		if kp[64]&1 == 1 {
+			k = new(big.Int).Sub(curveN, k)
+		}
+		r := kp[1:33]
+		commit := blake256.Sum256(append(append([]byte{}, r...), hash...))
+		e := new(big.Int).SetBytes(commit[:])
+		if e.Cmp(curveN) >= 0 || e.Sign() == 0 {
+			continue
+		}
+		in := append(append([]byte{}, r...), hash...)
+		d := new(big.Int).Mul(k, new(big.Int).ModInverse(e, curveN))
+		d.Mod(d, curveN)
+		u := secp.NewPrivateKey(scalarFromHex(hx(be32(d)))).PubKey().SerializeUncompressed()
+		qx, qy := hx(u[1:33]), hx(u[33:65])
+		h.doLine("verify-s-zero", withBlake("schnorr_verify "+hx(r)+hx(be32(big.NewInt(0)))+" "+hx(hash)+" "+qx+" "+qy, in))
+		h.doLine("sign-s-zero", withBlake("schnorr_sign_nonce "+hx(be32(d))+" "+hx(be32(k))+" "+hx(hash), in))
+		// any other key d2: s = -e*d2 makes R the point at infinity; s = e*d2 makes the two summands equal
+		d2 := h.randKeyInt()
+		u2 := secp.NewPrivateKey(scalarFromHex(hx(be32(d2)))).PubKey().SerializeUncompressed()
+		ed := new(big.Int).Mul(e, d2)
+		ed.Mod(ed, curveN)
+		h.doLine("verify-R-infinity", withBlake("schnorr_verify "+hx(r)+hx(be32(new(big.Int).Sub(curveN, ed)))+" "+hx(hash)+" "+hx(u2[1:33])+" "+hx(u2[33:65]), in))
+		h.doLine("verify-equal-summands", withBlake("schnorr_verify "+hx(r)+hx(be32(ed))+" "+hx(hash)+" "+hx(u2[1:33])+" "+hx(u2[33:65]), in))
+	}
 	h.doLine("sign-zero-key", "schnorr_sign "+hx(be32(big.NewInt(0)))+" "+hx(h.randBytes(32)))
 	// codec: lengths 0..70, r >= P, s >= N boundaries
 	for l := 0; l <= 70; l++ {
